@@ -367,8 +367,6 @@ def _stoch_posed(st: Stoch, entry, first, cap):
         for d in entry:
             if (d.symbol, d.id) != (st.left.symbol, st.left.id):
                 return False, "open descriptor differs from the left terminal", None
-            if d.order != st.left.order:
-                return False, "bond order differs from left terminal", None
             nb = BD(d.symbol, d.id, st.left.weight, d.order)
             starts.append(((reg(nb), 1),))
 
